@@ -265,7 +265,8 @@ def run(ck):
                 j2["op"] = {k: v for k, v in op.items() if k != "_oracles"}
                 prog, enc = M.op_program(j2, res, cfg, ps)
                 if prog:
-                    cases.append((len(cases), f"enc_replay_diag {enc} (run_trace ({prog}) {trace_to_coq(res['trace'])} 0)", j2, res, tag))
+                    # trace_effects: the number of tree-changing calls in the recorded trace (bound: C03_at_most_one_effect, C03_effect_count_sound)
+                    cases.append((len(cases), f"let t := {trace_to_coq(res['trace'])} in enc_replay_diag {enc} (run_trace ({prog}) t 0) ++ [trace_effects t]", j2, res, tag))
     # ---- the one system call that does the work fails: the operation must fail with that very error and change nothing
     # ("exactly the effect of the corresponding *at call": when that call does nothing, so does the operation)
     ftree = [["dir", H("root"), 0o755], ["dir", H("outside"), 0o755], ["dir", H("root/a"), 0o755], ["dir", H("root/a/b"), 0o755],
@@ -340,20 +341,27 @@ def run(ck):
             else:
                 ck.violation("C14: the operation succeeded although the kernel cannot resolve the parent in-root", dict(desc, model=got))
     if not ck.proof_broken:
-        evals, cerrs = coq_eval([(c[0], c[1]) for c in cases], header="From PV Require Import Replay.", tag="c14")
+        evals, cerrs = coq_eval([(c[0], c[1]) for c in cases], header="From PV Require Import Replay MonitorProofs.", tag="c14")
         if cerrs:
             ck.violation("T1: Coq evaluation of the case files failed", {"log": cerrs[0][-1500:]}, False)
         for cid, term, job, res, tag in cases:
             rep = evals.get(cid)
             if rep is None:
                 continue
+            rep, neff = rep[:-1], rep[-1]
+            stats["max_effect_calls"] = max(stats.get("max_effect_calls", 0), neff)
+            if neff > 1:
+                ck.violation("C14: a single-entry operation issued %d tree-changing calls (at most one: C03_at_most_one_effect)" % neff,
+                             {"job": J.describe(job), "deny": tag, "outcome": res.get("res"),
+                              "calls": [e for e in res["trace"] if e["c"] in ("unlinkat", "mkdirat", "mknodat", "renameat", "renameat2", "linkat", "symlinkat")
+                                        or (e["c"] in ("openat", "openat2") and e.get("flags", 0) & 0o100)][:10]})
             if rep[0] == 0 and M.outcome_matches(res, rep[2:]):
                 stats["t1_ok"] += 1
             else:
                 stats["t1_bad"] += 1
                 ck.violation("T1: model and implementation disagree on a single-entry operation",
                              {"job": J.describe(job), "deny": tag, "replay": rep, "real_outcome": res.get("res")}, False)
-    cov_extra = {"effect_call_fault_runs": stats.get("effect_faults", 0), "effect_call_faults_misplaced": stats.get("effect_faults_misplaced", 0)}
+    cov_extra = {"max_tree_changing_calls_in_a_replayed_trace": stats.get("max_effect_calls", 0), "effect_call_fault_runs": stats.get("effect_faults", 0), "effect_call_faults_misplaced": stats.get("effect_faults_misplaced", 0)}
     cov = {
         "evaluations": stats["ops"],
         "distinct_nontrivial": len(nontrivial),
